@@ -5,6 +5,7 @@ From A1 Require Import Per.Prim Per.Proofs.
 From A1 Require Props.C10 Props.C11.
 From A1 Require Der.Prim Der.TotalProofs.
 From A1 Require Import Uper.Spec Uper.TotalProofs.
+From A1 Require Proto.Wire Proto.Rw Proto.Proofs Proto.RwLemmas Proto.RoundtripProofs Proto.TotalProofs.
 Local Open Scope N_scope.
 
 (** L0: the bit copy under every read never panics when positions do not overflow *)
@@ -177,6 +178,93 @@ Theorem C04_ext_count_overflow_is_error : forall m,
               [225; 31; 255; 255; 255; 255; 255; 255; 255; 224; 0]) = false.
 Proof. exact ext_count_overflow_is_error. Qed.
 
+(** ** the protobuf Reader (model Proto/Rw.v, tied to rw/proto_read.rs by the differential stream of C17: ops 4010..4018
+       and 4060).  The names of the protobuf model clash with the UPER ones, so the statements live in a module. *)
+Module ProtoC04.
+Import A1.Proto.Wire A1.Proto.Rw A1.Proto.Proofs A1.Proto.RwLemmas A1.Proto.RoundtripProofs A1.Proto.TotalProofs.
+
+(* the only class in which the protobuf reader panics or diverges: the type contains, anywhere, a SEQUENCE OF whose
+   element type is again a SEQUENCE OF (F17-3 nested_list_read_unbounded: the inner read_set_or_sequence_of runs in
+   State::Root and never ends; in the model that is Panic P_UNBOUNDED).  F17-6 (ProtoRead::read_bit_vec on fewer
+   than 8 bytes) is NOT a class of the Reader: after f907d9b read_bit_string checks the length first, and the
+   theorem below covers BIT STRING components. *)
+Definition Known_C04_proto (t : pty) : Prop := Known_proto_unbounded t.
+
+(* every byte list, both profiles, every type that is not a bare SEQUENCE OF (a generated type is a struct or an
+   enum) and is outside the class: no panic.  The model's fuels (index_enclosed: |source| + 2 rounds, read_varint:
+   11 rounds) are set by the model itself and running out of them is a Panic (P_UNBOUNDED / P_OTHER), so
+   "does not loop" is part of the statement. *)
+Theorem C04_proto_total : forall m t bs,
+  is_seqof t = false -> ~ Known_C04_proto t -> forall p, pread m t bs <> Panic p.
+Proof. exact pread_total. Qed.
+
+(* the class is decidable and closed under nesting; a witness inside it diverges in both profiles *)
+Theorem C04_proto_refuted_nested_list :
+  (forall t, Known_C04_proto t -> no_nested_list t = false) /\
+  let t := TSeq [(false, TSeqOf (TSeqOf (TInt KU8))); (false, TInt KU8)] in
+  Known_C04_proto t /\
+  pread dev_mode t [8; 7; 16; 9] = Panic P_UNBOUNDED /\ pread release_mode t [8; 7; 16; 9] = Panic P_UNBOUNDED.
+Proof.
+  split; [exact known_unbounded_not|]. split.
+  - apply (KP_in_seq _ false (TSeqOf (TSeqOf (TInt KU8)))); [left; reflexivity|constructor].
+  - vm_compute. split; reflexivity.
+Qed.
+
+(* no over-read.  [pread] returns only the value, so the statement is about the underlying reader [rd] and its
+   state: (1) every byte range the reader holds after a successful step lies inside the source (s <= e <= |src|);
+   (2) [slice] (the model of &source[range]) succeeds only inside the source and returns exactly those bytes;
+   (3) every entry index_enclosed tabulates lies inside the window it was asked to index (checked_end);
+   (4) the primitive readers return a suffix of their input, having consumed between 1 and 11 bytes *)
+Theorem C04_proto_no_overread :
+  (forall m t src st v st', ~ Known_C04_proto t -> st_ok src st -> (is_seqof t = true -> is_encl st = true) ->
+     rd m src t st = Ok (v, st') -> st_ok src st') /\
+  (forall src s e sl, slice src (s, e) = Ok sl ->
+     s <= e /\ e <= nlen src /\ sl = firstn (N.to_nat (e - s)) (skipn (N.to_nat s) src)) /\
+  (forall src r tc tags, rng_ok src r -> index_enclosed src r = Ok (Enclosed tc tags) ->
+     Forall (fun t => rng_in r (ent_rng t)) tags) /\
+  (forall bs v rest, read_varint bs = Ok (v, rest) -> exists pre, bs = pre ++ rest /\ (1 <= length pre <= 11)%nat) /\
+  (forall bs tag f rest, read_tag bs = Ok (tag, f, rest) -> exists pre, bs = pre ++ rest /\ (1 <= length pre <= 11)%nat).
+Proof.
+  split; [exact reader_ranges_ok|]. split; [exact slice_inv|]. split; [exact index_enclosed_window|]. split.
+  - intros bs v rest E. pose proof (read_varint_spec bs) as H. rewrite E in H. exact H.
+  - intros bs tag f rest E. pose proof (read_tag_spec bs) as H. rewrite E in H. exact H.
+Qed.
+
+(* the raw primitives (ops 4010..4018) on every input, both profiles: none panics except read_bit_vec, which panics
+   exactly on inputs shorter than 8 bytes (F17-6; witness C04_proto_refuted_bit_vec_short in Props/C17.v:
+   read_bit_vec dev_mode [1; 2; 3] = Panic P_ARITH) *)
+Theorem C04_proto_primitives_total : forall m bs,
+  (forall p, read_varint bs <> Panic p) /\ (forall p, read_tag bs <> Panic p) /\
+  (forall p, read_sint32 bs <> Panic p) /\ (forall p, read_sint64 bs <> Panic p) /\
+  (forall p, read_string bs <> Panic p) /\ (forall p, read_uint32 bs <> Panic p) /\
+  (forall p, read_bool bs <> Panic p) /\ (forall p, read_sfixed32 bs <> Panic p) /\
+  (forall p, read_uint64 bs <> Panic p) /\ (forall p, read_enum_variant bs <> Panic p) /\
+  (forall p, read_bytes bs <> Panic p) /\
+  ((8 <= length bs)%nat -> forall p, read_bit_vec m bs <> Panic p) /\
+  ((length bs < 8)%nat -> exists p, read_bit_vec m bs = Panic p).
+Proof. exact primitives_total. Qed.
+
+(* non-vacuity: a message in a list in a message, with a CHOICE, an OPTIONAL and a BIT STRING, on garbage *)
+Definition t_c04_proto : pty :=
+  TSeq [(false, TSeqOf (TSeq [(false, TChoice [TInt KU8; TStr]); (true, TInt KI16)])); (false, TBool); (true, TBits)].
+Example C04_proto_nonvacuous :
+  is_seqof t_c04_proto = false /\ ~ Known_C04_proto t_c04_proto /\
+  pread dev_mode t_c04_proto [10; 5; 1] = Err E_IO /\ pread release_mode t_c04_proto [10; 5; 1] = Err E_IO /\
+  pread dev_mode t_c04_proto [10; 6; 10; 4; 18; 2; 255; 254; 16; 1] = Err E_UTF8 /\
+  pread release_mode t_c04_proto [10; 6; 10; 4; 18; 2; 255; 254; 16; 1] = Err E_UTF8 /\
+  pread dev_mode t_c04_proto [26; 3; 1; 2; 3] = Err E_IO /\ pread release_mode t_c04_proto [26; 3; 1; 2; 3] = Err E_IO /\
+  pread dev_mode t_c04_proto [255; 255; 255; 255; 255; 255; 255; 255; 255; 255; 255; 7] = Err E_INVALID_FORMAT /\
+  pread dev_mode t_c04_proto [10; 255; 255; 255; 255; 255; 255; 255; 255; 255; 1] = Err E_IO /\
+  pread dev_mode t_c04_proto [10; 4; 10; 2; 8; 7; 16; 1]
+  = Ok (VSeq [VList [VSeq [VChoice 0 (VInt 7); VOpt None]]; VBool true; VOpt None]).
+Proof.
+  split; [reflexivity|]. split.
+  - intros K. apply known_unbounded_not in K. vm_compute in K. discriminate K.
+  - vm_compute. repeat split; reflexivity.
+Qed.
+End ProtoC04.
+Export ProtoC04.
+
 (** non-vacuity: an extensible SEQUENCE with two known additions read from an encoding with three *)
 Example C04_nonvacuous :
   wf_ty ex4_ty /\ ~ Known_C04 ex4_ty /\
@@ -209,4 +297,8 @@ Print Assumptions C04_refuted_size_large_upper.
 Print Assumptions C04_refuted_bitstring_unconstrained.
 Print Assumptions C04_refuted_bitstring_extensible.
 Print Assumptions C04_ext_count_overflow_is_error.
+Print Assumptions C04_proto_total.
+Print Assumptions C04_proto_refuted_nested_list.
+Print Assumptions C04_proto_no_overread.
+Print Assumptions C04_proto_primitives_total.
 Print Assumptions C04_nonvacuous.
